@@ -297,20 +297,22 @@ class BasisSHO(BasisSet):
                 mat = self.dvr_v.T @ mat @ self.dvr_v
 
         elif op_symbol == "x p":
+            # x p = i/2 (b^\dagger + b)(b^\dagger - b)
             mat = -1.0j/2 *(self.op_mat(r"b b")
                     - self.op_mat(r"b^\dagger b^\dagger")
-                    + self.op_mat(r"b b^\dagger")
-                    - self.op_mat(r"b^\dagger b"))
+                    - self.op_mat(r"b b^\dagger")
+                    + self.op_mat(r"b^\dagger b"))
 
         elif op_symbol == "x dx":
             # x dx is real, while x p is imaginary
             mat = (self.op_mat("x p") / -1.0j).real
 
         elif op_symbol == "p x":
+            # p x = i/2 (b^\dagger - b)(b^\dagger + b)
             mat = -1.0j/2 *(self.op_mat(r"b b")
                     - self.op_mat(r"b^\dagger b^\dagger")
-                    - self.op_mat(r"b b^\dagger")
-                    + self.op_mat(r"b^\dagger b"))
+                    + self.op_mat(r"b b^\dagger")
+                    - self.op_mat(r"b^\dagger b"))
 
         elif op_symbol == "dx x":
             mat = (self.op_mat("p x") / -1.0j).real
